@@ -123,6 +123,7 @@ def generate(seed, prop):
         for r in recs:
             r["n"] = rng.randint(40, 90)
             r["rate"] = 100 if one_group else rng.choice([100, 100, 100, 200])
+            r["dead"] = None                                   # (one dead channel among hundreds would refuse every batch)
     if rng.random() < 0.6:                                  # deliberate duplicates of a time step
         for r in recs[1:]:
             if rng.random() < 0.5:
@@ -957,5 +958,6 @@ EVIDENCE = {p: {
                     "deep snapshots traverse every attribute reachable from the public objects (C09)",
                     "no storage or timing fault applies to process(); the fault dimension is the aborted call"],
 } for p in PROPS}
-REQUIRED_PROBES = {"C03": ["c03_rows_judged", "batch_mixed_dt", "keeping_policy_dropped_records"],
+REQUIRED_PROBES = {"C03": ["c03_rows_judged", "batch_mixed_dt", "keeping_policy_dropped_records", "many_rows_sampled",
+                           "resampling_groups_judged", "fft_length_above_floor"],
                    "C09": ["frame_condition_judged", "repeat_judged"]}
